@@ -216,8 +216,13 @@ type c16Built struct {
 // c16Build constructs a fresh controller whose informers list from the
 // simulator's current list views, and waits until they are synced.
 func (w *c16World) c16Build(s *c16CtlSpec) (*c16Built, error) {
+	return w.c16BuildShared(s, dynamicinformer.NewSharedInformerFactory(w.dynClient, time.Hour))
+}
+
+// c16BuildShared: the controller takes its informers from the given factory; controllers built from one
+// factory share the informer caches, as all hosted controllers of a metacontroller process do
+func (w *c16World) c16BuildShared(s *c16CtlSpec, dynInformers *dynamicinformer.SharedInformerFactory) (*c16Built, error) {
 	c16Install()
-	dynInformers := dynamicinformer.NewSharedInformerFactory(w.dynClient, time.Hour)
 	dc, err := newDecoratorController(w.resources, w.dynClient, dynInformers, vh.NoopRecorder{}, s.decoratorController(), 1, logr.Discard())
 	if err != nil {
 		return nil, err
